@@ -152,3 +152,44 @@ CHECKS["C05"] = dict(
                "input and is not decided.",
     design_ref="DESIGN.md 3/C05",
 )
+
+TBG = ("Python ast; the child process sa/gen_child.py runs ONLY the repository's generators (produce_code, literal "
+       "renderers) on plain-data shapes/crowns -- emitted closures are never compiled or called; family bounds in "
+       "sa/gen_child.py")
+CHECKS["C03"] = dict(
+    category="translation_validation",
+    technique="def-use analysis of generated loader/dumper sources against the input crown (translation validation)",
+    text="For every program the model generators emit for the enumerated family (shape x crown x extra policy x extra "
+         "move x debug_trail x strict_coercion) the emitted text is audited against the crown handed to the generator: "
+         "read path = write path = crown path per field, key-set constants, per-node extra-policy code, list length "
+         "checks, placeholders, sieve conditions, extras delivery. Each program is decided for all its inputs at once; "
+         "the family is finite and enumerated completely within its stated bounds.",
+    level_note="Trusted: " + TBG + ". How name_mapping options become a crown (overlay merge, name styles) is not "
+               "decided. Two genuine defects are recorded as known findings (structural key in collected extras; "
+               "shallow merge of extras in the dumper).",
+    design_ref="DESIGN.md 3/C03",
+)
+CHECKS["C08"] = dict(
+    category="translation_validation",
+    technique="typed-equality taint on literal inlining; translation validation of rendered literals and of the "
+              "constructor call / default handling of generated loaders against the shape; sibling decision tables",
+    text="Decides that literal inlining is type-exact (taint rule + rendered text of a value family re-evaluated by a "
+         "closed evaluator and compared by exact type and value), and for every emitted loader program that the real "
+         "constructor is called exactly once at the end with positional/keyword/** arguments as parameter kinds and "
+         "skipped parameters prescribe, packed fields only via **packed_fields, factory defaults called in the body, "
+         "captured defaults bound to the very object; loader generator and model coercer share one decision table.",
+    level_note="Trusted: " + TBG + "; closed literal evaluator in sa/genprog.py.",
+    design_ref="DESIGN.md 2.2, 3/C08",
+)
+CHECKS["C20"] = dict(
+    category="other",
+    technique="argument-mutation and container-freshness (hoisting) analysis of closures, plus the same rules on "
+              "generated sources",
+    text="Decides for every loader, dumper and coercer closure that nothing reachable from the argument is stored into, "
+         "deleted, augmented or handed a mutating method (aliases and loop elements tracked), that no closure returns or "
+         "fills a container its factory created once, and that container closures never return their argument; the "
+         "emitted model programs obey the same rules (extras copied item-wise into a dict created in the body).",
+    level_note="Trusted: Python ast, mutator-method table. Values documented as passed as-is may be shared. The IO[bytes] "
+               "dumper's seek/read is a recorded known finding.",
+    design_ref="DESIGN.md 3/C20",
+)
